@@ -43,7 +43,9 @@ CFG = PropCfg(
     [SuiteCfg("C05", nontrivial=_nontrivial, signature=_sig, classify=_classify),
      SuiteCfg("C05sess", nontrivial=_nontrivial, signature=_sig, classify=_classify),
      SuiteCfg("C05parse", stateless=True, signature=_sig, classify=_classify_parse,
-              nontrivial=lambda ops, outs: True)],
+              nontrivial=lambda ops, outs: True),
+     SuiteCfg("C05race", signature=_sig, classify=_classify, parts_thorough=4,
+              nontrivial=lambda ops, outs: any(o.startswith("wins=1") for o in outs))],
     rule="suite C05: a case is a history on one real HopServer (NewHopServerExt + SetFSystem(fstest.MapFS) + faked "
          "thunks.LookupUser): users with generated authorized_keys files (45% acceptable lines only - entries with "
          "Unicode/ASCII blanks around them, foreign keys, embedded CR, non-canonical final symbol, blank lines; 35% one "
@@ -57,7 +59,9 @@ CFG = PropCfg(
          "a session whose user-auth tube runs over an in-memory message connection; the confirmation byte the client "
          "reads must agree with the method's result. suite C05parse: "
          "core.ParseAuthorizedKeys, keys.ParseDHPublicKey, strings.TrimSpace and bufio.Scanner alone on the same "
-         "grammar (every line a case).",
+         "grammar (every line a case). suite C05race: thousands of rounds 'store a grant (sometimes two) for one "
+         "(user, key); 2-16 goroutines call AuthorizeKeyAuthGrant for it at once': whatever the interleaving "
+         "exactly one call gets the grants (the model serialises the calls: C05_grant_consumed).",
     assumptions=["suite C05 drives the login decision through HopServer.AuthorizeKey / AuthorizeKeyAuthGrant composed as "
                  "hopSession.checkAuthorization composes them; suite C05sess runs checkAuthorization itself, with the "
                  "transport handshake replaced by a handle that reports the client key (hook)",
